@@ -27,6 +27,13 @@ pub enum M {
 }
 
 impl N {
+    pub fn is_zero(&self) -> bool {
+        match self {
+            N::I(v) => *v == 0,
+            N::U(v) => *v == 0,
+            N::F(f) => *f == 0.0,
+        }
+    }
     /// The one representation change the format itself makes: a signed zero integer
     /// is stored as the one-byte zero form, which reads back unsigned.
     pub fn norm(self) -> N {
